@@ -1,5 +1,6 @@
 import torch
 from torch import nn
+from torch.nn import functional as F
 from nflows.transforms.base import Transform
 
 
@@ -17,4 +18,5 @@ class Bad(Transform):
         return outputs, logabsdet
 
     def inverse(self, inputs, context=None):
-        return inputs, inputs.new_zeros(inputs.shape[0])
+        outputs = F.dropout(inputs, p=0.1)
+        return outputs, inputs.new_zeros(inputs.shape[0])
